@@ -189,21 +189,33 @@ func (o *oracle) refDerive(cpriv []byte, serverKey string) { o.refSecret(cpriv, 
 
 // ---- Coq tables ---------------------------------------------------------------------
 
+// blockTab groups the entries by key: [(key, [(in, out); ...]); ...]
 func blockTab(es []blockEntry) string {
-	return vh.ListOf(es, func(e blockEntry) string { return vh.Pair(vh.Pair(vh.Hex(e.key), vh.Hex(e.in)), vh.Hex(e.out)) })
+	var keys []string
+	byKey := map[string][]blockEntry{}
+	for _, e := range es {
+		k := string(e.key)
+		if _, ok := byKey[k]; !ok {
+			keys = append(keys, k)
+		}
+		byKey[k] = append(byKey[k], e)
+	}
+	return vh.ListOf(keys, func(k string) string {
+		return vh.Pair(lit([]byte(k)), vh.ListOf(byKey[k], func(e blockEntry) string { return vh.Pair(lit(e.in), lit(e.out)) }))
+	})
 }
 
 func (o *oracle) tabE() string { return blockTab(o.es) }
 func (o *oracle) tabD() string { return blockTab(o.ds) }
 func (o *oracle) tabMD5() string {
-	return vh.ListOf(o.ms, func(e md5Entry) string { return vh.Pair(vh.Hex(e.msg), vh.Hex(e.sum[:])) })
+	return vh.ListOf(o.ms, func(e md5Entry) string { return vh.Pair(lit(e.msg), lit(e.sum[:])) })
 }
 func (o *oracle) tabDH() string {
 	return vh.ListOf(o.dhs, func(e dhEntry) string {
 		out := vh.None()
 		if e.ok {
-			out = vh.Some(vh.Hex(e.out))
+			out = vh.Some(lit(e.out))
 		}
-		return vh.Pair(vh.Pair(vh.Hex(e.scalar), vh.Hex(e.point)), out)
+		return vh.Pair(vh.Pair(lit(e.scalar), lit(e.point)), out)
 	})
 }
